@@ -19,7 +19,7 @@ for p in props:
         "thorough_cmd": f"./vcheck run {pid} --tier thorough",
         "evidence_file": f"/verif/evidence/{pid}.json",
         "replay_cmd_template": "./vcheck replay {path}",
-        "engine": "+".join(sorted({r["bin"] for r in PROPS[pid]["runs"]})),
+        "engine": "+".join(sorted({r.get("bin") or r.get("probe") for r in PROPS[pid]["runs"]})),
         "level_claimed": {"category": PROPS[pid].get("level", "exploration"), "text": t["text"], "design_ref": t["design_ref"]},
         "level_note": t["note"],
         "technique": t["technique"],
@@ -37,9 +37,9 @@ m = {
         "add_only": True,
     },
     "engines": [
-        {"name": b, "path": f"/verif/harness/{b}", "serves_properties": sorted(k for k, v in PROPS.items() if any(r["bin"] == b for r in v["runs"])),
+        {"name": b, "path": f"/verif/harness/{b}", "serves_properties": sorted(k for k, v in PROPS.items() if any((r.get("bin") or r.get("probe")) == b for r in v["runs"])),
          "kind_free_text": "runtime reference-model monitor binary (Rust), path-depends on /repo's working tree"}
-        for b in sorted({r["bin"] for v in PROPS.values() for r in v["runs"]})
+        for b in sorted({(r.get("bin") or r.get("probe")) for v in PROPS.values() for r in v["runs"]})
     ],
     "checks": checks,
     "notes": "Every check is `./vcheck run <ID>`: rebuilds the monitor binaries against /repo's working tree (cargo path dependencies), runs them with VERIF_SEED, merges their reports, applies known_findings.json and rewrites evidence/<ID>.json. Exit 0 held / 1 VIOLATION / 2 INCONCLUSIVE.",
